@@ -57,7 +57,9 @@ LADDERS2 = [("a[%s]", "0", "a=(0 0 0); echo $(( %s ))"), ("${a[%s]}", "0", "a=(0
 # open finding C01-F5: left unterminated, nests of these shapes are parsed in exponential time where the text reaches the word /
 # arithmetic / pattern parsers without passing the tokenizer (prompt expansion, ${v@P}); their open variants are not generated
 OPEN_OK = {"$((%s))": False, "@(%s|y)": False, "!(%s)": False, "+(%s)": False, "*(%s)": False, "${a[$((%s))]}": False, "$(%s)": False, "\"$(%s)\"": False,
-           "<(%s)": False}
+           "<(%s)": False,
+           # (a run of unclosed parentheses inside `$(( ... ))` is the same shape: `echo $(( ((((((1 ))` doubles per level through ${x@P} / word_parse)
+           "(%s)": False}
 
 
 def ladder_scripts():
